@@ -4,7 +4,6 @@
 package aspect_elimination
 
 import (
-	sl "github.com/Azbesciak/RealDecisionMaker/lib/logic/limited-rationality/satisfaction-levels"
 	"github.com/Azbesciak/RealDecisionMaker/lib/model"
 	vh "github.com/Azbesciak/RealDecisionMaker/lib/zz_vh"
 	rt "github.com/Azbesciak/RealDecisionMaker/lib/zz_verifrt"
@@ -14,77 +13,6 @@ import (
 //verif:bounds C12 HC12_shuffled: seeded-random alternative order (draws symbolic), A<=3, K<=2, explicit levels; only the order-independent clauses
 //verif:outside C12: ties between criterion weights (broken by the seeded generator; only well-formedness is claimed there, see C01); symbolic series parameters (see C14); sizes beyond the bounds
 //verif:assume C12: the threshold list used by the oracle is obtained from a second instance of the real satisfaction-levels source (its content is the subject of C14)
-
-var c12sources = []sl.SatisfactionLevelsSource{&sl.IdealIncreasingMulCoefficientSatisfaction, &sl.IdealAdditiveCoefficientSatisfaction, &sl.IncreasingThresholds}
-
-type c12setup struct {
-	known  []model.AlternativeWithCriteria
-	chose  []string
-	crit   model.Criteria
-	params AspectEliminationHeuristicParams
-	dmp    *model.DecisionMakingParams
-	levels []model.Weights
-}
-
-func c12build(maxA, maxK, maxL int, shuffle bool) *c12setup {
-	A := rt.IntRange("A", 1, maxA)
-	K := rt.IntRange("K", 1, maxK)
-	crit := vh.Criteria(1, "")
-	for i := 1; i < K; i++ {
-		t := model.Cost
-		if i%2 == 0 {
-			t = model.Gain
-		}
-		crit = append(crit, model.Criterion{Id: vh.CritIds[i], Type: t})
-	}
-	nKnown := A
-	if rt.Bool("one-more-known") {
-		nKnown = A + 1
-	}
-	known := vh.Alternatives("", vh.AltIds[:nKnown], crit)
-	chose := []string{}
-	for i := A - 1; i >= 0; i-- {
-		chose = append(chose, vh.AltIds[i])
-	}
-	w := vh.Weights("w.", crit, 0, 4)
-	for i := 0; i < K; i++ {
-		for j := i + 1; j < K; j++ {
-			rt.Assume(w[crit[i].Id] != w[crit[j].Id])
-		}
-	}
-	s := &c12setup{known: known, chose: chose, crit: crit}
-	fn := rt.OneOf("levels", "thresholds", "idealAdditiveCoefficient", "idealMultipliedCoefficient")
-	var p interface{}
-	switch fn {
-	case "thresholds":
-		L := rt.IntRange("L", 1, maxL)
-		p = vh.JSONThresholds("t", L, crit)
-	case "idealAdditiveCoefficient":
-		if rt.Bool("series-variant") {
-			p = vh.JSONCoefficient(0.5, 0, 1)
-		} else {
-			p = vh.JSONCoefficient(0.25, 0.5, 0.75)
-		}
-	default:
-		if rt.Bool("series-variant") {
-			p = vh.JSONCoefficient(0.5, 0, 0.75)
-		} else {
-			p = vh.JSONCoefficient(0.9, 0.25, 1)
-		}
-	}
-	s.params = AspectEliminationHeuristicParams{Function: fn, Params: p, RandomSeed: 3, Weights: w, RandomAlternativesOrdering: shuffle}
-	s.dmp = vh.Params(known, chose, crit, s.params)
-	// the levels, from a second instance of the real source
-	src := sl.Find(fn, p, c12sources)
-	src.Initialize(s.dmp)
-	for src.HasNext() {
-		s.levels = append(s.levels, src.Next())
-		if len(s.levels) > 8 {
-			panic("series longer than the harness bound")
-		}
-	}
-	return s
-}
 
 // criteria from the heaviest weight down (weights are pairwise distinct)
 func c12byWeight(s *c12setup) []model.Criterion {
